@@ -12,7 +12,7 @@ for pid in sys.argv[1:]:
     for f in json.load(open(p))["findings"]:
         f = dict(f)
         if f["status"] == "fixed":
-            patch = f.get("patch") or f.get("commit") or ""
+            patch = f.get("patch") or f.get("fix") or f.get("commit") or ""
             msgf = os.path.join(V, patch.replace(".patch", ".msg")) if patch.endswith(".patch") else None
             commit = None
             if msgf and os.path.exists(msgf):
